@@ -161,7 +161,7 @@ section run
 variable (ordered : List Node) (succs : Node → List Node) (targets : List Node) (size : Nat)
   (preds : Node → List Node)
 variable (c0 : Cache) (ht : isTopo succs ordered = true) (hd : ordered.Nodup)
-  (h0d : ∀ x ∈ c0.held, x ∉ ordered)
+  (h0 : c0.WF) (h0d : ∀ x ∈ c0.held, x ∉ ordered) (h0e : ∀ e ∈ c0.edges, e.1 ∉ ordered)
   (hp : ∀ n ∈ ordered, ∀ p ∈ preds n, (p ∈ ordered ∧ n ∈ succs p) ∨ p ∈ c0.held)
 include ht hd h0d hp
 
@@ -236,6 +236,66 @@ theorem calc_phase_cons (fuel k : Nat) (c : Cache) (inv : SInv ordered succs tar
     · rw [erase_evalNodeV, evalNode_ready preds fuel n vc'.erase hn hpreds]
       simp [hh]
     · exact evalNodeV_ready_cons f preds D fuel n vc' hc hpreds (hD n hnord)
+
+include h0 h0e
+
+/-- one step of the plan keeps "every entry is `D`'s value" -/
+theorem step_cons [Inhabited V] (fuel k : Nat) (vc : VCache V)
+    (inv : SInv ordered succs targets size c0 k vc.erase) (hc : vc.Cons D) :
+    (execStepV f preds (fuel + 1) (stepAt ordered succs targets size k) vc).Cons D := by
+  have h1 := calc_phase_cons ordered succs targets size preds c0 ht hd h0d hp f D hD fuel k vc.erase inv
+    (curBlock ordered size k) [] vc (by simp) (by simp) hc
+  have hb : (stepAt ordered succs targets size k).block = curBlock ordered size k := rfl
+  -- what the calc phase holds (erased)
+  have h1h : ((curBlock ordered size k).foldl (fun c n => evalNodeV f preds (fuel + 1) n c) vc).erase.held =
+      vc.erase.held ++ curBlock ordered size k := by
+    rw [foldl_erase _ (fun c n => evalNode preds (fuel + 1) n c) (fun c n => erase_evalNodeV f preds (fuel + 1) n c)]
+    exact (calc_phase ordered succs targets size preds c0 ht hd h0 h0d h0e hp fuel k vc.erase inv
+      (curBlock ordered size k) [] vc.erase (by simp) (by simp) rfl (by simp)
+      (fun e he => Or.inl ((inv.edges e).mp he)) (fun e he => (inv.edges e).mpr he)).1
+  generalize hc1 : (curBlock ordered size k).foldl (fun c n => evalNodeV f preds (fuel + 1) n c) vc = vc1
+    at h1 h1h
+  have hpaste_sub : ∀ x ∈ (stepAt ordered succs targets size k).paste, x ∈ vc1.erase.held := by
+    intro x hx
+    unfold stepAt at hx
+    rw [stepOut_paste, List.mem_reverse] at hx
+    rw [h1h]; exact List.mem_append_right _ (List.mem_filter.mp hx).1
+  unfold execStepV
+  simp only [execActionV]
+  rw [hb, hc1, evalV_all_held f preds (fuel + 1) _ vc1 hpaste_sub]
+  exact clearV_fold_cons _ _ (pasteV_fold_cons vc1 h1 _ hpaste_sub vc1 h1)
+
+/-- **the values of a run**: executing the plan from a valued cache all of whose entries are `D`'s values
+(user inputs: the assigned values; calculated values the model already holds: their values) leaves a
+cache all of whose entries are `D`'s values, for every solution `D` of the evaluation equations on the
+planned elements -/
+theorem run_cons [Inhabited V] (fuel : Nat) (hz : 1 ≤ size) (vc0 : VCache V) (he0 : vc0.erase = c0)
+    (hc0 : vc0.Cons D) :
+    (executeV f preds (fuel + 1) (calcSteps ordered succs targets size) vc0).Cons D := by
+  have key : ∀ m,
+      SInv ordered succs targets size c0 m ((List.range m).foldl
+        (fun c k => execStepV f preds (fuel + 1) (stepAt ordered succs targets size k) c) vc0).erase ∧
+      ((List.range m).foldl
+        (fun c k => execStepV f preds (fuel + 1) (stepAt ordered succs targets size k) c) vc0).Cons D := by
+    intro m
+    induction m with
+    | zero =>
+      refine ⟨⟨?_, ?_, fun e => by simp [he0], by simp [he0]⟩, hc0⟩
+      · intro x; simp [heldAt, pastedAt, he0]
+      · intro x; simp [heldAt, pastedAt, he0]
+    | succ m ih =>
+      rw [List.range_succ, List.foldl_append]
+      simp only [List.foldl_cons, List.foldl_nil]
+      refine ⟨?_, step_cons ordered succs targets size preds c0 ht hd h0 h0d h0e hp f D hD fuel m _ ih.1 ih.2⟩
+      rw [erase_execStepV]
+      exact step_inv ordered succs targets size preds c0 ht hd h0 h0d h0e hp fuel m _ ih.1
+  have hrun : executeV f preds (fuel + 1) (calcSteps ordered succs targets size) vc0 =
+      (List.range (nSteps ordered succs targets size)).foldl
+        (fun c k => execStepV f preds (fuel + 1) (stepAt ordered succs targets size k) c) vc0 := by
+    unfold calcSteps
+    rw [executeV_flatMap, planSteps_eq_map ordered succs targets size hz, List.foldl_map]
+  rw [hrun]
+  exact (key _).2
 
 end run
 
